@@ -42,7 +42,8 @@ _p = None
 LEADS = ['That part of the NE/4', 'A strip of land 100 feet wide across', '']
 TRAILS = ['lying north of the river', 'described as follows: beginning at a point', '']
 SECS = [('Section 14', [14]), ('Sec 1 - 3', [1, 2, 3]), ('Sections 5 and 6', [5, 6]), ('Sec. 36', [36]), ('Secs 9, 10', [9, 10])]
-PLACES = ['before', 'before_nl', 'after_sec', 'of_after_sec', 'end', 'in_after_sec', 'between', 'in_between']
+PLACES = ['before', 'before_nl', 'after_sec', 'of_after_sec', 'end', 'in_after_sec', 'between', 'in_between', 'split_trail']
+TRAIL2 = 'containing 40 acres'        # second trailing block; sorts before both trailing texts
 TR = 'T154N-R97W'
 
 
@@ -195,6 +196,8 @@ def sw_text(lead, sec, trail, place):
         t = f"{lead_sec} of {TR} {trail}"
     elif place == 'in_after_sec':
         t = f"{lead_sec} in {TR}, {trail}"
+    elif place == 'split_trail':
+        t = f"{lead_sec} {trail} in {TR}, {TRAIL2}"
     elif place == 'between':
         t = f"{lead}, {TR}, {sec} {trail}"
     elif place == 'in_between':
@@ -210,6 +213,8 @@ def judge_sw(acc, li, si, ti, place):
         return
     if not lead and place in ('between', 'in_between'):
         return
+    if place == 'split_trail' and not (lead and trail):
+        return
     if not lead and place in ('after_sec', 'of_after_sec', 'in_after_sec'):
         # 'Section 14, T154N-R97W, <text>' is none of the documented layouts and the section is not *embedded* (nothing
         # precedes it): outside the statement
@@ -218,6 +223,8 @@ def judge_sw(acc, li, si, ti, place):
     key = f"sec_within|{text}"
     case = {'sw': True, 'lead': li, 'sec': si, 'trail': ti, 'place': place, 'text': text}
     want_desc = ' '.join(x for x in (lead, trail) if x)
+    if place == 'split_trail':
+        want_desc += ' ' + TRAIL2
     exp = [(f"154n97w{n:02d}", want_desc) for n in nums]
     try:
         d = _p.PLSSDesc(text, config='sec_within')
